@@ -106,19 +106,22 @@ theorem c18_abort (H : Content ν ε → δ) (results : List (MemberResult ν ε
 /-- `csv.writer(f)` / `csv.reader(f)` with no arguments -/
 def csvDefault : Model.Csv.Dialect := ⟨',', '"', 131072⟩
 
-/-- the bytes of data.csv / unmatched.csv: `csv.writer(f).writerow` per line, default dialect and
-    line terminator, file opened in text mode -/
-def csvText (rows : List Rec) : List Char := Model.Csv.renderCRLF csvDefault (rows.map (·.map String.toList))
+/-- the bytes of data.csv (written by the line spooler in the run's dialect `d`) and of
+    unmatched.csv (`d = csvDefault`): `csv.writer(f, …).writerow` per line with the default line
+    terminator, file opened in text mode -/
+def csvText (d : Model.Csv.Dialect) (rows : List Rec) : List Char :=
+  Model.Csv.renderCRLF d (rows.map (·.map String.toList))
 
-/-- **data.csv and unmatched.csv say which lines were kept**: read back with `csv.reader` over a
-    text-mode file (as `ResultSerializer` loads them and as the next member of a
+/-- **data.csv and unmatched.csv say which lines were kept**: read back with `csv.reader` in the
+    same dialect over a text-mode file (as `Result.lines` does and as the next member of a
     `source-mode: preceding` chain reads them) they give exactly the lines the member held in
-    memory — every cell, in order — whatever the cells contain (no carriage return) -/
-theorem c09_csv_content (rows : List Rec)
-    (h : ∀ r ∈ rows, ∀ c ∈ r, '\r' ∉ c.toList ∧ c.toList.length ≤ csvDefault.limit) :
-    (Model.Csv.read csvDefault (csvText rows)).map (·.map (·.map String.ofList)) = some rows := by
+    memory — every cell, in order — whatever the cells contain (no carriage return), for every
+    delimiter and quote character -/
+theorem c09_csv_content (d : Model.Csv.Dialect) (hd : Proofs.Csv.WFD d) (rows : List Rec)
+    (h : ∀ r ∈ rows, ∀ c ∈ r, '\r' ∉ c.toList ∧ c.toList.length ≤ d.limit) :
+    (Model.Csv.read d (csvText d rows)).map (·.map (·.map String.ofList)) = some rows := by
   unfold csvText
-  rw [Proofs.Csv.read_renderCRLF csvDefault ⟨by decide, by decide, by decide, by decide, by decide⟩]
+  rw [Proofs.Csv.read_renderCRLF d hd]
   · simp [Function.comp_def]
   · intro r hr c hc
     simp only [List.mem_map] at hr
@@ -129,8 +132,10 @@ theorem c09_csv_content (rows : List Rec)
     subst e
     exact h r0 hr0 c0 hc0
 
-example : (Model.Csv.read csvDefault (csvText [["he said \"hi\"", "a,b"], ["line\nbreak", ""]])).map (·.map (·.map String.ofList))
+example : (Model.Csv.read csvDefault (csvText csvDefault [["he said \"hi\"", "a,b"], ["line\nbreak", ""]])).map (·.map (·.map String.ofList))
     = some [["he said \"hi\"", "a,b"], ["line\nbreak", ""]] := by decide
+
+example : Proofs.Csv.WFD csvDefault := ⟨by decide, by decide, by decide, by decide, by decide⟩
 
 /-! Non-vacuity (variables are a number, errors are line numbers, the "hash" is the constructor tag) -/
 def tagH : Content Nat Nat → Nat
